@@ -122,6 +122,29 @@ def run(chk):
                 except Undecided as e:
                     v, d = UNDECIDED, e.cause
                 chk.add("C08.O", key, v, d, where=where_of(ob))
+                key = "<%s as PartialOrd>::partial_cmp n=%d vs %d" % (K.adt, n1, n2)
+                try:
+                    it = env.interp()
+                    st = State()
+                    pa = K.place(st, K.mk(st, n1, sym_words(n1, "a")))
+                    pb_ = K.place(st, K.mk(st, n2, sym_words(n2, "b")))
+                    outs = it.call_body(pb, [pa, pb_], st, {})
+                    o, v, d = single_return(outs)
+                    if o is not None:
+                        r = o.value
+                        want = 0 if n1 < n2 else 2
+                        if isinstance(r, Agg) and r.key == OPTION:
+                            if r.variant == 0:
+                                v, d = REFUTED, "tables of %d and %d variables are incomparable (partial_cmp returns None): the order is not total" % (n1, n2)
+                            elif isinstance(r.fields[0], Agg) and r.fields[0].key == ORDERING:
+                                v, d = (PROVED, "") if r.fields[0].variant == want else (REFUTED, "partial_cmp orders a %d-variable table %s a %d-variable one" % (n1, "above" if n1 < n2 else "below", n2))
+                            else:
+                                v, d = UNDECIDED, "ordering depends on table contents"
+                        else:
+                            v, d = UNDECIDED, "result %r" % (r,)
+                except Undecided as e:
+                    v, d = UNDECIDED, e.cause
+                chk.add("C08.O", key, v, d, where=where_of(pb))
     # ------------------------------------------------------------------ C08.S / C08.I
     cfgs = [("dbg", env)] + ([("rel", Env(frel))] if frel else [])
     for cfg, e in cfgs:
